@@ -129,6 +129,7 @@ type pkgInfo struct {
 	consts  map[string]ast.Expr // package-level constants with a literal value
 	strs    map[string]string   // package-level string constants
 	vars    map[string]ast.Expr // package-level variables initialised with a composite literal
+	mapLits map[string]*ast.CompositeLit // package-level maps initialised with a (possibly non-empty) literal
 }
 
 func scalarWidth(t string) int {
@@ -162,7 +163,7 @@ func typeStr(e ast.Expr) string {
 }
 
 func loadPkg(root, short, dir string) *pkgInfo {
-	pi := &pkgInfo{short: short, structs: map[string]*ast.StructType{}, methods: map[string]map[string]*ast.FuncDecl{}, funcs: map[string]*ast.FuncDecl{}, hand: map[string]bool{}, consts: map[string]ast.Expr{}, strs: map[string]string{}, vars: map[string]ast.Expr{}}
+	pi := &pkgInfo{short: short, structs: map[string]*ast.StructType{}, methods: map[string]map[string]*ast.FuncDecl{}, funcs: map[string]*ast.FuncDecl{}, hand: map[string]bool{}, consts: map[string]ast.Expr{}, strs: map[string]string{}, vars: map[string]ast.Expr{}, mapLits: map[string]*ast.CompositeLit{}}
 	files, _ := filepath.Glob(filepath.Join(root, dir, "*.go"))
 	sort.Strings(files)
 	for _, f := range files {
@@ -190,6 +191,9 @@ func loadPkg(root, short, dir string) *pkgInfo {
 								if cl, ok := vs.Values[k].(*ast.CompositeLit); ok {
 									if _, isArr := cl.Type.(*ast.ArrayType); isArr {
 										pi.vars[n.Name] = cl
+									}
+									if _, isMap := cl.Type.(*ast.MapType); isMap {
+										pi.mapLits[n.Name] = cl
 									}
 								}
 							}
@@ -1360,6 +1364,51 @@ func (pi *pkgInfo) tables(sc *Schema, tyID func(pkg, name string) (int, bool)) {
 			b, _ := strconv.Atoi(inits[j][5:])
 			return a < b
 		})
+		entryOf := func(keyE, facE ast.Expr) Entry {
+			key := ""
+			if l.kind == "num" {
+				v, ok := intLit(keyE)
+				if !ok {
+					key = "?" + src(keyE)
+				} else {
+					key = strconv.Itoa(v)
+				}
+			} else {
+				sv, ok := strLit(keyE)
+				if !ok {
+					key = "?" + src(keyE)
+				} else {
+					key = fmt.Sprintf("%x", sv)
+					if key == "" {
+						key = "-"
+					}
+				}
+			}
+			tn := "?"
+			tid := -1
+			if fl, ok := facE.(*ast.FuncLit); ok && len(fl.Body.List) == 1 {
+				if r, ok := fl.Body.List[0].(*ast.ReturnStmt); ok && len(r.Results) == 1 {
+					if n, ok := newStruct(r.Results[0]); ok {
+						if id, ok := tyID(pi.short, n); ok {
+							tn, tid = pi.short+"."+n, id
+						}
+					}
+				}
+			}
+			return Entry{Key: key, Ty: tid, TyN: tn}
+		}
+		// entries written into the map's own composite literal (`var cache = map[K]func() codec.BinaryCodec{k: f, …}`) are
+		// there before any init function runs
+		if lit, ok := pi.mapLits[l.cache]; ok {
+			for _, el := range lit.Elts {
+				kv, ok := el.(*ast.KeyValueExpr)
+				if !ok {
+					t.Entries = append(t.Entries, Entry{Key: "?" + src(el), Ty: -1, TyN: "?"})
+					continue
+				}
+				t.Entries = append(t.Entries, entryOf(kv.Key, kv.Value))
+			}
+		}
 		for _, in := range inits {
 			var calls []*ast.CallExpr
 			if !initCalls(pi.funcs[in].Body.List, map[string]ast.Expr{}, &calls) {
@@ -1382,41 +1431,24 @@ func (pi *pkgInfo) tables(sc *Schema, tyID func(pkg, name string) (int, bool)) {
 				if id, ok := ce.Fun.(*ast.Ident); !ok || id.Name != reg {
 					continue
 				}
-				key := ""
-				if l.kind == "num" {
-					v, ok := intLit(ce.Args[0])
-					if !ok {
-						key = "?" + src(ce.Args[0])
-					} else {
-						key = strconv.Itoa(v)
-					}
-				} else {
-					sv, ok := strLit(ce.Args[0])
-					if !ok {
-						key = "?" + src(ce.Args[0])
-					} else {
-						key = fmt.Sprintf("%x", sv)
-						if key == "" {
-							key = "-"
-						}
-					}
-				}
-				tn := "?"
-				tid := -1
-				if fl, ok := ce.Args[1].(*ast.FuncLit); ok && len(fl.Body.List) == 1 {
-					if r, ok := fl.Body.List[0].(*ast.ReturnStmt); ok && len(r.Results) == 1 {
-						if n, ok := newStruct(r.Results[0]); ok {
-							if id, ok := tyID(pi.short, n); ok {
-								tn, tid = pi.short+"."+n, id
-							}
-						}
-					}
-				}
-				t.Entries = append(t.Entries, Entry{Key: key, Ty: tid, TyN: tn})
+				t.Entries = append(t.Entries, entryOf(ce.Args[0], ce.Args[1]))
 			}
 		}
 		sc.Tables = append(sc.Tables, t)
 	}
+}
+
+// the arguments of an error constructor are literals or plain identifiers (an index or slice expression can panic, a call
+// can do anything)
+func plainArgs(c *ast.CallExpr) bool {
+	for _, a := range c.Args {
+		switch a.(type) {
+		case *ast.BasicLit, *ast.Ident:
+		default:
+			return false
+		}
+	}
+	return true
 }
 
 // lookupShape recognises the two spellings of a discriminator look-up (names are irrelevant):
@@ -1470,7 +1502,7 @@ func lookupShape(fd *ast.FuncDecl) (string, string) {
 			return false
 		}
 		c, ok := r.Results[1].(*ast.CallExpr)
-		return ok && (src(c.Fun) == "fmt.Errorf" || src(c.Fun) == "errors.New")
+		return ok && (src(c.Fun) == "fmt.Errorf" || src(c.Fun) == "errors.New") && plainArgs(c)
 	}
 	b := fd.Body.List
 	if len(b) == 2 {
